@@ -1037,6 +1037,16 @@ def gen_c13(tier, seed):
             mem = exc_setup(r, []) + [(DATA, [r.randrange(256) for _ in range(0x140)])]
             ops = setup_ops(regs, mem, code + [0x70] * 4) + ['k:3e8', 'sx', 'gr', 'rw:700000', 'rw:700004', 'sx', 'gr', 'X:9']
             g.add(ops, 'fault-in-pop')
+        # ... or one or two words above it: an instruction that pops several words (RET, RESTORE, RETG) reads the first
+        # ones and faults on a later one; whatever it read must not have been committed
+        for sp in (0x700004, 0x700008, 0x70000c):
+            for fp in (sp, 0x700004, 0x700018):
+                regs = rnd_regs(r, psw_of(r.choice(allflags()), ipl=15))
+                regs[12] = sp
+                regs[9] = fp
+                mem = exc_setup(r, []) + [(DATA, [r.randrange(256) for _ in range(0x140)])] + [(0x700000, [r.randrange(256) for _ in range(0x20)])]
+                ops = setup_ops(regs, mem, code + [0x70] * 4) + ['k:3e8', 'sx', 'gr', 'rw:%x' % sp, 'rw:%x' % (sp + 4), 'sx', 'gr', 'X:b']
+                g.add(ops, 'fault-in-later-pop')
     # a zero divisor together with a faulting second source: the operands are read in order, the bus fault comes first
     for name in ('MODW3', 'MODH3', 'MODB3', 'DIVW3', 'DIVH3', 'DIVB3', 'MODW2', 'DIVW2'):
         for _ in range(3 if tier == 'quick' else 30):
@@ -1122,6 +1132,8 @@ def mon_c13(case, obs):
     r1 = [int(x, 16) for x in out[i1 + 1][2:].split(',')]
     pc0, sp0, psw0 = regs[15], regs[12], regs[11]
     w0, w4 = out[i1 + 2], out[i1 + 3]
+    if r1[15] != HANDLER and toks[-1] == 'X:b':
+        return None      # fault-in-later-pop: the instruction pops fewer words than it would take to reach the hole
     if r1[15] != HANDLER:
         # the instruction did not fault (e.g. a source in a hole that the instruction does not read): nothing to judge
         if r1[15] != pc0 and r1[12] == sp0:
@@ -1168,7 +1180,15 @@ def gen_c07(tier, seed):
               # both receivers ready at the same boundary, in either arrival order, with and without a mouse event
               ['wb:20000b:5', 'wb:20002b:5', 'qa:42', 'qb:41', 't:1e8480', 'sv'],
               ['wb:20000b:5', 'wb:20002b:5', 'qb:41', 't:1e8480', 'sv', 'qa:42', 't:3d0900', 'sv'],
-              ['wb:20000b:5', 'wb:20002b:5', 'qa:42', 't:1e8480', 'sv', 'qb:41', 't:3d0900', 'sv', 'md:2']]
+              ['wb:20000b:5', 'wb:20002b:5', 'qa:42', 't:1e8480', 'sv', 'qb:41', 't:3d0900', 'sv', 'md:2'],
+              # a request that was presented (latched by an interrupt poll at a masked boundary) and is then withdrawn by a
+              # disable command before it can be delivered: only that source's request goes away
+              ['wb:20000b:5', 'wb:20002b:5', 'qa:42', 'qb:41', 't:1e8480', 'sv', 'gi', 'wb:20000b:2'],
+              ['wb:20000b:5', 'wb:20002b:5', 'qa:42', 'qb:41', 't:1e8480', 'sv', 'gi', 'wb:20002b:2'],
+              ['wb:20000b:5', 'qa:42', 't:1e8480', 'sv', 'gi', 'wb:20000b:2'],
+              ['wb:20002b:5', 'qb:41', 't:1e8480', 'sv', 'gi', 'wb:20002b:2'],
+              ['wb:20000b:5', 'wb:20002b:5', 'qb:41', 't:1e8480', 'sv', 'gi', 'wb:20000b:2'],
+              ['wb:20000b:4', 'gi', 'wb:20000b:8'], ['wb:20000b:4', 'md:1', 'gi', 'wb:20000b:8']]
     for ipl in range(16):
         for ev in events:
             for flags in (0, 0x100, 0x80, 0x180):           # handler PSW: none / R / I / R+I
@@ -1287,7 +1307,7 @@ def mon_c07(case, obs):
         elif st1 == 'xP':
             return 'privileged instruction refused at kernel level'
         return None
-    gi = out[toks.index('gi')]
+    gi = out[len(toks) - 1 - toks[::-1].index('gi')]      # the poll just before the step (earlier polls only latch requests)
     before, after = parse(out[grs[0]]), parse(out[grs[1]])
     ipl = (regs[11] >> 13) & 15
     cm = (regs[11] >> 11) & 3
